@@ -1,0 +1,74 @@
+//go:build verif
+
+// Package vhook provides named instrumentation points for the out-of-tree runtime-verification
+// harness (build tag "verif"). A point counts its hits and, when a callback is installed for its
+// name, invokes it on the calling goroutine. Points are placed BETWEEN critical sections or at
+// existing suspension points only, so a callback that sleeps widens real interleavings and never
+// manufactures one the program cannot have.
+package vhook
+
+import (
+	"sync"
+	"sync/atomic"
+	"time"
+)
+
+type point struct {
+	hits atomic.Int64
+	fn   atomic.Pointer[func(time.Duration)]
+}
+
+var points sync.Map // name -> *point
+
+func get(name string) *point {
+	if p, ok := points.Load(name); ok {
+		return p.(*point) //nolint:forcetypeassert // only *point is ever stored
+	}
+	p, _ := points.LoadOrStore(name, &point{})
+
+	return p.(*point) //nolint:forcetypeassert // only *point is ever stored
+}
+
+// At marks a named instrumentation point.
+func At(name string) { AtDur(name, 0) }
+
+// AtDur marks a named instrumentation point carrying a duration (e.g. a requested sleep).
+func AtDur(name string, d time.Duration) {
+	p := get(name)
+	p.hits.Add(1)
+	if f := p.fn.Load(); f != nil {
+		(*f)(d)
+	}
+}
+
+// Set installs (or, with nil, removes) the callback of a named point.
+func Set(name string, fn func(time.Duration)) {
+	p := get(name)
+	if fn == nil {
+		p.fn.Store(nil)
+
+		return
+	}
+	p.fn.Store(&fn)
+}
+
+// Clear removes every callback (hit counters are kept).
+func Clear() {
+	points.Range(func(_, v any) bool {
+		v.(*point).fn.Store(nil) //nolint:forcetypeassert // only *point is ever stored
+
+		return true
+	})
+}
+
+// Counts returns the hit counter of every point seen so far.
+func Counts() map[string]int64 {
+	out := map[string]int64{}
+	points.Range(func(k, v any) bool {
+		out[k.(string)] = v.(*point).hits.Load() //nolint:forcetypeassert // key/value types are fixed
+
+		return true
+	})
+
+	return out
+}
